@@ -298,6 +298,10 @@ def check(prop, tier, seed):
                            "rule": getattr(P, "RULE", "cases are enumerated exhaustively up to the stated bound, each case is distinct by construction"),
                            "samples": [x for b in bounded for x in (b.get("samples") or [])] or [b.get("bound") for b in bounded],
                            "exhaustive": True, "bounded": bounded, "obligations": n_obl, "discharged": n_dis,
+                           "functions_under_contract": functions, "by_backend": by_backend, "solver_time_s": round(solver_time, 3),
+                           "trusted_base": list(getattr(P, "TRUSTED_BASE", [])),
+                           "undecided": [r["oid"] for _, r in unknown] + [o["task"] for o in errors],
+                           "known_findings_reported": known_lines,
                            "not_covered": list(getattr(P, "NOT_COVERED", [])), "repo": REPO,
                            "verdict": {0: "held", 1: "violation", 2: "undecided", 3: "checker-error"}[exit_code]},
               "assumptions": list(getattr(P, "ASSUMPTIONS", [])), "wall_s": round(wall, 3), "violations": violations}
